@@ -765,6 +765,25 @@ def check_C11(ctx):
         elif steps < b or not flagged:
             ctx.violation('unfinished-not-flagged' if steps == b else 'fewer-steps-than-budget', 'a divergent macro under budget %d: %d steps performed, error flagged: %s' % (b, steps, flagged), {'source': text, 'passes': b})
         ctx.nontrivial(text + '|%d' % b)
+    # divergent by construction, with a macro that ERASES (empty body) in the cycle: the budget error is due under every budget,
+    # and the whole compilation is incorrect
+    erasing = ['DEFINE nop ; AS END DEFINE\nDEFINE x0 := 1 AS nop ; x0 := 1 END DEFINE\nx0 := 1',
+               'DEFINE PRIO 9 nop ; AS END DEFINE\nDEFINE PRIO 1 y := 2 AS nop ; y := 2 END DEFINE\ny := 2',
+               'DEFINE PRIO 1 nop ; AS END DEFINE\nDEFINE PRIO 9 y := 2 AS nop ; y := 2 END DEFINE\ny := 2 ; nop ; y := 2',
+               'DEFINE a AS END DEFINE\nDEFINE b AS a b END DEFINE\nb']
+    for text, b, f, raw in apply_trace(ctx, erasing, budgets):
+        ctx.cov['evaluations'] += 1
+        if f is None:
+            ctx.violation('apply-crash', 'apply_macros crashed / hung: ' + raw[:300], {'source': text, 'passes': b})
+            continue
+        if P['MACRO_APPLY_REACHED_MAX_PASSES'] not in [e[0] for e in parse_perrs(f['errs'])]:
+            ctx.violation('unfinished-not-flagged', 'a divergent macro set (one macro of the cycle has an empty body) under budget %d: no too-many-substitutions error' % b, {'source': text, 'passes': b})
+            break
+        ctx.nontrivial(text + '|%d' % b)
+    for t, o in zip(erasing, impl(ctx, ['GEN ' + files_req(b'm', {b'm': t.encode()}) for t in erasing], timeout=120)):
+        ctx.cov['evaluations'] += 1
+        if is_crash(o) or fields(o).get('ok') != '0':
+            ctx.violation('unfinished-passed-on', 'a divergent macro set with an erasing macro: %s' % ('compile crashed / hung' if is_crash(o) else 'compiled as correct'), {'source': t})
     # all pass budgets: terminating macro sets with budgets at the edges of the parameter's type (unsigned 32 bit) and of int;
     # a budget larger than the number of rewrites needed gives the fixed point without an error
     fin = []
